@@ -133,3 +133,17 @@ def add_line_unknown_version(rt, vlevel, VN, header_has_VN, segment_version):
         if want_version[rt] == "gfa2" and not ok:
             return "a queued custom record was refused although the version is gfa2"
     return True
+
+
+def json_escape(fname):
+    """json field functions on malformed and on very deeply nested JSON: only gfapy.Error may escape"""
+    import gfapy.field.json as fj
+    deep = "[" * 100000 + "]" * 100000
+    for s in ["{", "[1,", "", "nul", deep]:
+        try:
+            getattr(fj, fname)(s)
+        except gfapy.Error:
+            pass
+        except BaseException as e:
+            return "%s(%s...) raised %s" % (fname, s[:12], type(e).__name__)
+    return True
